@@ -280,7 +280,7 @@ def run_unit(u: Unit, repo: Repo, timeout_ms=10000, seed=0) -> UnitResult:
         paths = explore(body, make_ctx, max_paths=u.max_paths)
     except PathLimit as e:
         res.unsupported.append(str(e))
-        paths = []
+        paths = getattr(e, 'done', [])
     except Exception:
         res.crash = traceback.format_exc()
         paths = []
